@@ -132,7 +132,7 @@ func (c *defaultClient) PinPath(ctx context.Context, path string, opts api.PinOp
 		"POST",
 		fmt.Sprintf(
 			"/pins%s?%s",
-			strings.TrimSuffix(ipfspath.String(), "/"),
+			(&url.URL{Path: strings.TrimSuffix(ipfspath.String(), "/")}).EscapedPath(),
 			query,
 		),
 		nil,
@@ -155,7 +155,7 @@ func (c *defaultClient) UnpinPath(ctx context.Context, p string) (*api.Pin, erro
 		return nil, err
 	}
 
-	err = c.do(ctx, "DELETE", fmt.Sprintf("/pins%s", strings.TrimSuffix(ipfspath.String(), "/")), nil, nil, &pin)
+	err = c.do(ctx, "DELETE", fmt.Sprintf("/pins%s", (&url.URL{Path: strings.TrimSuffix(ipfspath.String(), "/")}).EscapedPath()), nil, nil, &pin)
 	return &pin, err
 }
 
@@ -316,7 +316,7 @@ func (c *defaultClient) Metrics(ctx context.Context, name string) ([]*api.Metric
 		return nil, errors.New("bad metric name")
 	}
 	var metrics []*api.Metric
-	err := c.do(ctx, "GET", fmt.Sprintf("/monitor/metrics/%s", name), nil, nil, &metrics)
+	err := c.do(ctx, "GET", fmt.Sprintf("/monitor/metrics/%s", url.PathEscape(name)), nil, nil, &metrics)
 	return metrics, err
 }
 
